@@ -1,4 +1,6 @@
 mod itemlist;
+mod model;
+mod placement;
 mod util;
 
 fn main() {
@@ -12,6 +14,8 @@ fn main() {
     match argv[1].as_str() {
         "itemlist-replay" => itemlist::replay(&args),
         "itemlist-record" => itemlist::record(&args),
+        "placement-replay" => placement::replay(&args),
+        "placement-record" => placement::record(&args),
         other => {
             eprintln!("unknown subcommand {other}");
             std::process::exit(2);
